@@ -12,6 +12,9 @@ set_option linter.unusedVariables false
 /-- after the replace CAS: unlinking the old node, then the final assertion -/
 def InRepl (x : Thr) : Prop := (GcPc x.pc ∧ x.gcont = .repl) ∨ x.pc = .rAssert
 
+/-- after the load of `cds_lfht_del` that saw the node unflagged -/
+def PostLd (p : Pc) : Prop := p = .dOr ∨ GcPc p ∨ p = .dAssert ∨ p = .dLd2 ∨ p = .dXchg
+
 /-- the ways an `add*` / `replace` / `del` / `lookup` call returns, with what the returning step saw -/
 def Ret (s : State) (t : Nat) (l : Label) (o : Out) : Prop :=
   let x := s.th t
@@ -39,7 +42,12 @@ def Cont (s s' : State) (t : Nat) (l : Label) (o : Out) : Prop :=
     (l = .ldWalk ∧ x.pc = .wNext ∧ x'.cur = x.cur ∧ x'.wnx = s.nxt x.cur ∧ found s x (s.nxt x.cur) = true)) ∧
   (InRepl x' → (InRepl x ∧ x'.old = x.old) ∨
     (l = .casRepl ∧ x.pc = .rCas ∧ s.nxt x.old = x.oldnx ∧ okp s x.old = true ∧ x'.old = x.old)) ∧
-  (x'.pc = .dOr → x.pc = .dOr ∨ (l = .ldDel ∧ x.pc = .dLd ∧ (s.nxt x.node).rem = false))
+  (x.op = .del → PostLd x'.pc → PostLd x.pc ∨ (l = .ldDel ∧ x.pc = .dLd ∧ (s.nxt x.node).rem = false)) ∧
+  (x.op = .lookup →
+    (x'.pc = .lHead → (x.pc = .lHead ∧ x'.bkt = x.bkt) ∨ (l = .ldSize ∧ x.pc = .lSize ∧ x'.bkt = s.tbl (x.hs % s.size))) ∧
+    (x'.pc = .wNext → (x.pc = .wNext ∧ x'.cur = x.cur) ∨
+      (l = .ldWalk ∧ x.pc = .wNext ∧ x'.cur = (s.nxt x.cur).ptr ∧ found s x (s.nxt x.cur) = false) ∨
+      (l = .ldHeadL ∧ x.pc = .lHead ∧ x'.cur = (s.nxt x.bkt).ptr)))
 
 set_option maxHeartbeats 8000000 in
 theorem own_step_class {c s s' t l o} (hc : c.ownerByOr = false) (r : Reach c s) (st : step c s t l = some (s', o))
@@ -81,7 +89,7 @@ theorem own_step_class {c s s' t l o} (hc : c.ownerByOr = false) (r : Reach c s)
         | (exfalso; simp only [ZPc, HPc, Worker, AddPc, GcPc] at hN wrole; grind; done)
         | (have e1 : s'.th t = x' := by rw [e_th']; simp [upd]
            left
-           simp only [Cont, e1, xop, xhs, xky, xmode, xnode, xold, xpc, xcur, xwnx, xgcont, InRepl, GcPc, ← e_out]
+           simp only [Cont, e1, xop, xhs, xky, xmode, xnode, xold, xpc, xcur, xwnx, xgcont, xbkt, InRepl, PostLd, GcPc, ← e_out]
            simp only [ZPc, HPc, Worker, AddPc, GcPc] at hN wrole
            grind; done)
         | (have e1 : s'.th t = x' := by rw [e_th']; simp [upd]
